@@ -535,7 +535,13 @@ func (st *State) strLit(s string) *Term {
 	raw := st.declare(name, SStr)
 	t := &Term{S: raw.S, Sort: SStr, Lit: s}
 	st.strlits[s] = t
-	st.assume(Eq(App(SInt, st.declareFun("str_len", []Sort{SStr}, SInt), raw), IntLit(int64(len(s)))))
+	lenF := st.declareFun("str_len", []Sort{SStr}, SInt)
+	st.assume(Eq(App(SInt, lenF, raw), IntLit(int64(len(s)))))
+	if s == "" {
+		// the empty string is the only string of length 0
+		x := Const("s!qe", SStr)
+		st.assume(Forall([]*Term{x}, Implies(Eq(App(SInt, lenF, x), IntLit(0)), Eq(x, raw)), App(SInt, lenF, x)))
+	}
 	return t
 }
 
